@@ -406,3 +406,40 @@ pub struct TableStats {
     pub buffer_bytes: usize,
     pub size_per_column: Vec<(String, usize)>,
 }
+
+// verification hooks: read-only accessors (add-only, feature `verif`)
+#[cfg(feature = "verif")]
+impl Table {
+    /// (id, range.start, range.end, total_size_bytes) of every partition, in no particular order
+    pub fn verif_layout(&self) -> Vec<(u64, usize, usize, usize)> {
+        let partitions = self.partitions.read().unwrap();
+        partitions
+            .values()
+            .map(|p| (p.id, p.range().start, p.range().end, p.total_size_bytes()))
+            .collect()
+    }
+
+    /// (rows in the open buffer, rows in the frozen buffer)
+    pub fn verif_buffer_lens(&self) -> (usize, usize) {
+        let frozen = self.frozen_buffer.lock().unwrap().len();
+        let open = self.buffer.lock().unwrap().len();
+        (open, frozen)
+    }
+
+    /// (next_partition_id, next_partition_offset)
+    pub fn verif_next(&self) -> (u64, usize) {
+        (
+            self.next_partition_id.load(std::sync::atomic::Ordering::SeqCst),
+            self.next_partition_offset.load(std::sync::atomic::Ordering::SeqCst),
+        )
+    }
+
+    /// the in-memory column name set (None: not loaded yet), sorted
+    pub fn verif_column_names(&self) -> Option<Vec<String>> {
+        self.column_names.read().unwrap().as_ref().map(|s| {
+            let mut v: Vec<String> = s.iter().cloned().collect();
+            v.sort();
+            v
+        })
+    }
+}
